@@ -112,6 +112,32 @@ def plan(model_name, n, seed, first_tid):
     return out
 
 
+def plan_oriented(model_name, n, seed, first_tid):
+    """C05: 2-D, view angles away from zero, no jitter, dispersity on 3..5 sizes at once, so that the
+    orientation parameters are not among the distributions the kernel loops over."""
+    model = get_model(model_name)
+    info = model.info
+    P = info.parameters
+    rng = random.Random("o-%s-%s" % (model_name, seed))
+    sizes = sorted(p.name for p in P.call_parameters if p.polydisperse and p.type == "volume")
+    out = []
+    for k in range(n):
+        pars = {kk: float(v) for kk, v in P.defaults.items()
+                if not kk.startswith("up_") and not kk.endswith(("_M0", "_mtheta", "_mphi"))}
+        for p in P.call_parameters:
+            if p.type == "orientation":
+                pars[p.name] = rng.choice([30.0, 60.0, 90.0, 145.0, -60.0, 20.0])
+        rng.shuffle(sizes)
+        nd = min(len(sizes), rng.choice([3, 4, 5, 5]), P.max_pd)
+        for name in sizes[:nd]:
+            pars[name + "_pd_type"] = rng.choice(["gaussian", "rectangle"])
+            pars[name + "_pd_n"] = rng.choice([2, 2, 3])
+            pars[name + "_pd"] = rng.choice([0.05, 0.1, 0.2])
+            pars[name + "_pd_nsigma"] = 2.0
+        out.append({"tid": first_tid + k, "model": model_name, "pars": pars, "cutoff": 0.0, "dim": "2d", "mode": 0})
+    return out
+
+
 def run_scenario(sc):
     from sasmodels.direct_model import call_kernel, call_Fq, get_mesh
     from sasmodels.details import make_kernel_args
@@ -199,7 +225,7 @@ def main():
         scen = []
         tid = req["first_tid"]
         for m in req["models"]:
-            s = plan(m, req["per_model"], req["seed"], tid)
+            s = (plan_oriented if req.get("style") == "oriented" else plan)(m, req["per_model"], req["seed"], tid)
             tid += req["per_model"]
             scen += s
     for sc in scen:
